@@ -345,7 +345,10 @@ InitC == /\ \E ls \in SeqsUpTo(KindsC, MaxLenC), e \in {"nl", "nonl"}, c \in Chu
               /\ m = Start(ls, e, "fd")
               /\ chunk = c
          /\ avail = 0 /\ closed = FALSE
-NextC == Machine \/ Feed \/ Close
+\* everything written, the end closed, the shell finished: the run is over
+Term  == m.pc = "done" /\ chunk > 0 => (avail = Total(m) /\ closed)
+Over  == m.pc = "done" /\ Term /\ UNCHANGED vars
+NextC == Machine \/ Feed \/ Close \/ Over
 SpecC == InitC /\ [][NextC]_vars
 
 -----------------------------------------------------------------------------
@@ -388,8 +391,9 @@ ASSUME ~Oracle(<<"ON", "OF", "NP">>, TRUE, "str").err
 ChunkIndependent ==
   m.pc = "done" => Obs(m) = Obs(Run(Start(m.lines, m.eof, m.feed)))
 
-\* The chunked run never gets stuck before the shell is done.
-NoStall == m.pc # "done" => ENABLED NextC
+\* The chunked run never gets stuck before the shell is done: SpecC is checked
+\* for deadlock (the only state without a proper successor is the final one,
+\* which stutters by Over).
 
 -----------------------------------------------------------------------------
 \* Calibration: worked examples of the sources (evaluated by TLC at start-up).
